@@ -670,6 +670,20 @@ func (u *Unit) evalCall(env *SpecEnv, x *ast.CallExpr) SV {
 			return env.fail("iterold() outside a loop")
 		}
 		return u.evalExpr(env.withSnapshot(env.head), x.Args[0])
+	case "acqat", "oldat":
+		// acqat(s, i): element i (evaluated now) of slice s as it was at acquisition
+		sn := env.acq
+		if name == "oldat" {
+			sn = env.old
+		}
+		if sn == nil {
+			return env.fail("%s() without snapshot", name)
+		}
+		e2 := env.withSnapshot(sn)
+		e2.bound = env.bound
+		base := u.evalExpr(e2, x.Args[0])
+		idx := arg(1)
+		return u.evalIndex(e2, base, idx)
 	case "loopentry":
 		if env.pre == nil {
 			return env.fail("loopentry() outside a loop")
@@ -898,7 +912,7 @@ func (u *Unit) evalCall(env *SpecEnv, x *ast.CallExpr) SV {
 		i := SV{V: T{"q!seqi", SInt}, Typ: intT}
 		sa, ea := elemIn(x.Args[0], i)
 		sb, eb := elemIn(x.Args[1], i)
-		q := fmt.Sprintf("(forall ((q!seqi Int)) (=> (and (<= 0 q!seqi) (< q!seqi (slen %s))) (= %s %s)))", sa.S, ea.S, eb.S)
+		q := fmt.Sprintf("(forall ((q!seqi Int)) (! (=> (and (<= 0 q!seqi) (< q!seqi (slen %s))) (= %s %s)) :pattern (%s) :pattern (%s)))", sa.S, ea.S, eb.S, ea.S, eb.S)
 		return SV{V: And(Eq(app(SInt, "slen", sa), app(SInt, "slen", sb)), T{q, SBool}), Typ: boolT}
 	}
 	// spec-level definitions (macros)
